@@ -18,6 +18,7 @@ structure IFib where
   osf    : Option Int
   size   : Option Int
   scan   : Option (List (Option Int × Option Int × Option Int))
+  scan2  : Option (List (Option Int × Option Int × Option Int))
   lookup : Option (List (Int × Option Int))
 
 def optInt (j : Json) : Except String (Option Int) :=
@@ -34,7 +35,8 @@ def fOptInt (j : Json) (k : String) : Except String (Option Int) :=
   | some v => do pure (some (← v.getInt?))
 
 def parseIFib (j : Json) : Except String IFib := do
-  let scan ← match fOpt j "scan" with
+  let parseScan (key : String) : Except String (Option (List (Option Int × Option Int × Option Int))) :=
+    match fOpt j key with
     | none => pure none
     | some s => do
       let rows ← (← asList s).mapM (fun r => do
@@ -47,6 +49,8 @@ def parseIFib (j : Json) : Except String IFib := do
           pure (c', (← optInt ph), (← optInt res))
         | _ => throw "scan row")
       pure (some rows)
+  let scan ← parseScan "scan"
+  let scan2 ← parseScan "scan2"
   let lookup ← match fOpt j "lookup" with
     | none => pure none
     | some s => do
@@ -68,7 +72,7 @@ def parseIFib (j : Json) : Except String IFib := do
     idx := ← fOptInt j "idx"
     osf := ← fOptInt j "osf"
     size := ← fOptInt j "size"
-    scan, lookup }
+    scan, scan2, lookup }
 
 def parseFmts (s : String) : Except String (List Fmt) :=
   s.toList.mapM (fun c => match c with
@@ -162,11 +166,13 @@ def handleC20 (j : Json) : Except String Verdict := do
            why := if spec then "" else "decode: arrays do not decode to the content" }
   | "scan" =>
     let agree := baseAgree && sameCount &&
-      pairs.all (fun e => e.2.scan == some (modelScan e.1))
-    let okOf (e : EFib × IFib) : Bool :=
-      match e.2.scan with
-      | some rows => decide (rows.map (fun r => (r.1, r.2.2)) = e.1.elemsSpec)
+      pairs.all (fun e => e.2.scan == some (modelScan e.1) && e.2.scan2 == some (modelScan e.1))
+    let okRows (F : EFib) (o : Option (List (Option Int × Option Int × Option Int))) : Bool :=
+      match o with
+      | some rows => decide (rows.map (fun r => (r.1, r.2.2)) = F.elemsSpec)
       | none => false
+    -- isolated scan and the scan interleaved with the other fibers of the rank
+    let okOf (e : EFib × IFib) : Bool := okRows e.1 e.2.scan && okRows e.1 e.2.scan2
     let bad := pairs.filter (fun e => !okOf e)
     let spec := sameCount && bad.isEmpty
     let isCU (F : EFib) : Bool := F.fmt == .C && F.next == some .U
@@ -184,6 +190,22 @@ def handleC20 (j : Json) : Except String Verdict := do
     let why := if spec then "" else "size: differs from the words of the layout"
     pure { agree, spec, tags, why,
            model := jList (allM.map (fun F => jList [jInt (sizeCode F.getSize), jNat F.words])) }
+  | "walk" =>
+    let rows ← (← fArr impl "walk").mapM (fun r => do
+      match (← asList r) with
+      | [pt, v] =>
+        match (asInts pt), v.getInt? with
+        | .ok p, .ok x => pure (some (p, x))
+        | _, _ => pure none   -- a marker row: dangling child / error / non-termination
+      | _ => throw "walk row")
+    let got : Option Content := rows.mapM id
+    let m := walkM E.fibs 0
+    let spec := got == some cont
+    let agree := baseAgree && got == some m
+    let nB := (fs.filter (· == .B)).length
+    let tags := shapeTags ++ (if nB ≥ 2 then ["twoBranks"] else [])
+    pure { agree, spec, tags, why := if spec then "" else "walk: depth-first walk through the handle interface does not yield the content",
+           model := jList (m.map (fun e => jList [jInts e.1, jInt e.2])) }
   | "lookup" =>
     let cpairs := pairs.filter (fun e => e.1.fmt == .C)
     let agree := baseAgree && sameCount &&
